@@ -26,8 +26,9 @@ RULE = ("exhaustive scope: 364 tables x ~25 regex patterns x counts x shifts in 
         "Non-trivial = the selector yields >= 2 rows, or uses a count / shift / open bound, or is a composition; distinct "
         "by (index column, selector[, second selector]) digest.")
 ASSUMPTIONS = [
-    "row names contain no separator strings, no regex metacharacters and no case-only duplicates (the exact-name shortcut "
-    "of the implementation is only then equivalent to the documented regex semantics); patterns may be in either case",
+    "with a ::count the implementation tries the selector text as an exact name first; that is equivalent to the documented "
+    "regex semantics only for names without regex metacharacters and case-only duplicates, so counts are drawn only for "
+    "such name pools; WITHOUT a count, pools with case-only duplicates and metacharacters ('m.1', 'a|b') are generated too",
     "shifts that leave the table are not evaluated (counted as excluded)",
     "mixed int/str lists are not a documented selector form and are not generated",
 ]
@@ -38,14 +39,15 @@ COUNTS = [None, 0, 1, -1, -2, 3]
 REQUIRED_CLASSES = ["sel:int", "sel:ints", "sel:mask", "sel:names", "sel:regex", "sel:regex+count", "sel:regex+negative-count",
                     "sel:regex+shift", "sel:span", "sel:span-open", "sel:colspan", "sel:range-closed", "sel:range-lower-open",
                     "sel:range-upper-open", "sel:range-both-open", "sel:none", "sel:slice", "sel:empty", "composition",
-                    "api:rows", "api:indices", "api:mask", "result:empty", "result:>=2"]
+                    "api:rows", "api:indices", "api:mask", "result:empty", "result:>=2", "gen-tricky-names"]
 KINDCOL = ["x", "y", "x", "z", "y", "w", "x"]
 
 
 def model_for(names, extra_rows=None):
     n = len(names)
-    return {"index": "name", "order": ["name", "s", "k", "kind", "pos"],
+    return {"index": "name", "order": ["name", "s", "sn", "k", "kind", "pos"],
             "cols": {"name": list(names), "s": [float(i // 2) for i in range(n)],
+                     "sn": [float("nan") if i % 3 == 1 else float(i // 2) for i in range(n)],
                      "k": [(i * 3 + 1) % 5 for i in range(n)], "kind": [KINDCOL[i % len(KINDCOL)] for i in range(n)],
                      "pos": list(range(n))}}
 
@@ -55,7 +57,7 @@ def table_for(tm):
     c = tm["cols"]
     n = len(c["name"])
     data = {"name": np.array(c["name"], dtype=str) if n else np.array([], dtype=str),
-            "s": np.array(c["s"], dtype=float), "k": np.array(c["k"], dtype=int),
+            "s": np.array(c["s"], dtype=float), "sn": np.array(c["sn"], dtype=float), "k": np.array(c["k"], dtype=int),
             "kind": np.array(c["kind"], dtype=str) if n else np.array([], dtype=str),
             "pos": np.array(c["pos"], dtype=int)}
     return Table(data, index="name")
@@ -163,7 +165,7 @@ def check_one(ctx, tm, t, sel, apis=("rows", "indices", "mask"), tag="exh"):
             f = Failure(f"C08:{sel_classes(sel, want)[0][4:]}:{api}:{what}" + (":" + got[1] if isinstance(got, tuple) else ""),
                         {"names": tm["cols"]["name"], "selector": TR.render(sel), "api": api, "got": repr(got)[:300],
                          "expected": repr(want)[:300],
-                         "columns": {c: tm["cols"][c] for c in ("s", "k", "kind")} if sel[0] in ("range", "colspan") else None})
+                         "columns": {c: repr(tm["cols"][c]) for c in ("s", "sn", "k", "kind")} if sel[0] in ("range", "colspan") else None})
             f.case = {"kind": "single", "names": tm["cols"]["name"], "sel": sel, "api": api}
             return f
     return None
@@ -243,6 +245,9 @@ def other_family(tm):
     for lo in (None, 0, 1, 3):
         for hi in (None, 0, 2, 4):
             yield ["range", lo, hi, "k"]
+    for lo in (None, 0.0, 1.0, 5.0):          # a column holding NaN: NaN rows belong to no bounded range
+        for hi in (None, 0.0, 1.0, 2.0):
+            yield ["range", lo, hi, "sn"]
 
 
 def all_tables():
@@ -279,6 +284,10 @@ def run_exhaustive(ctx):
 
 # ------------------------------------------------------------------ generated tables, pairs
 POOLS = [["a", "b", "ab"], ["ip1", "ip2", "mq", "mqx", "d"], ["A1", "b2", "c3", "d4", "e5", "f6"], ["x", "xx"]]
+# names that differ only by case or contain regex metacharacters (dots are everywhere in accelerator lattices): a string
+# selector WITHOUT ::count is still a case-insensitive full-match regex over all of them (with ::count the
+# implementation's exact-name shortcut applies first, which is why counts are not drawn for these pools)
+TRICKY_POOLS = [["qf", "QF", "d", "qd"], ["m.1", "mx1", "m.2", "M.1"], ["a|b", "a", "b"], ["x+", "xx", "x"]]
 
 
 def draw_selector(draw, tm):
@@ -302,10 +311,10 @@ def draw_selector(draw, tm):
                base[:-1] + "."][form]
         return ["regex", pat, draw(st.sampled_from([None, None, 0, 1, 2, -1, -2, 7])), draw(st.sampled_from([0, 0, 1, -1, 2]))]
     if k == "range":
-        col = draw(st.sampled_from(["s", "k"]))
+        col = draw(st.sampled_from(["s", "k", "sn"]))
         lo = draw(st.sampled_from([None, -1, 0, 1, 2, 3, 7]))
         hi = draw(st.sampled_from([None, 0, 1, 2, 4, 9, 30]))
-        if col == "s":
+        if col in ("s", "sn"):
             lo = None if lo is None else lo + draw(st.sampled_from([0.0, 0.5]))
             hi = None if hi is None else hi + draw(st.sampled_from([0.0, 0.5]))
         return ["range", lo, hi, col]
@@ -327,8 +336,29 @@ def draw_selector(draw, tm):
     return [k]
 
 
+def draw_tricky_selector(draw, tm, pool):
+    names = tm["cols"]["name"]
+    n = len(names)
+    k = draw(st.sampled_from(["regex-name", "regex-name", "regex-name", "regex-other", "names", "span", "range"]))
+    if k == "regex-name":        # the selector text is itself one of the names
+        return ["regex", draw(st.sampled_from(pool)), None, draw(st.sampled_from([0, 0, 1, -1]))]
+    if k == "regex-other":
+        return ["regex", draw(st.sampled_from([".*", "q.", "m.*", "[ab]", "x*", "M\\.1", "a\\|b"])), None, 0]
+    if k == "names" and n:
+        return ["names", [[names[draw(st.integers(0, n - 1))], None, 0] for _ in range(draw(st.integers(1, 3)))]]
+    if k == "span" and n:
+        return ["span", [names[draw(st.integers(0, n - 1))], None, 0], [names[draw(st.integers(0, n - 1))], None, 0], None]
+    return ["range", draw(st.sampled_from([None, 0.0, 1.0])), draw(st.sampled_from([None, 1.0, 3.0])), "sn"]
+
+
 @st.composite
 def gen_cases(draw):
+    if draw(st.integers(0, 3)) == 0:
+        pool = draw(st.sampled_from(TRICKY_POOLS))
+        n = draw(st.integers(0, 12))
+        names = [draw(st.sampled_from(pool)) for _ in range(n)]
+        tm = model_for(names)
+        return {"kind": "pair", "names": names, "s1": draw_tricky_selector(draw, tm, pool), "s2": None, "tricky": True}
     pool = draw(st.sampled_from(POOLS))
     n = draw(st.integers(0, 40))
     names = [draw(st.sampled_from(pool)) for _ in range(n)]
@@ -346,7 +376,7 @@ def exec_gen(ctx, case):
     t = table_for(tm)
     s1, s2 = case["s1"], case["s2"]
     if s2 is None:
-        return check_one(ctx, tm, t, s1, tag="gen")
+        return check_one(ctx, tm, t, s1, tag="gen-tricky-names" if case.get("tricky") else "gen")
     r1 = expected(tm, s1)
     if not isinstance(r1, list):
         return check_one(ctx, tm, t, s1, tag="gen")
